@@ -630,6 +630,18 @@ func (ws *windowSpace) ltSFacts(v ssa.Value, facts []Fact, depth int, seen map[s
 		if !ws.isLoadOf(other, ws.sQueue) {
 			continue
 		}
+		// x+1 != s with x < s gives x+1 < s (x <= 254, so the increment cannot wrap the uint8)
+		if (op == token.NEQ && f.Val) || (op == token.EQL && !f.Val) {
+			if add, ok := v.(*ssa.BinOp); ok && add.Op == token.ADD {
+				for _, pr := range [][2]ssa.Value{{add.X, add.Y}, {add.Y, add.X}} {
+					if k, isK := intConst(pr[1]); isK && k == 1 {
+						if okx, _ := ws.ltSFacts(pr[0], facts, depth+1, seen); okx {
+							return true, "x+1 != s with x < s"
+						}
+					}
+				}
+			}
+		}
 		if !f.Val {
 			switch op {
 			case token.LSS:
